@@ -160,7 +160,8 @@ class Oracle:
             self.ambiguous = len(trees) != 1
             self.tree = trees[0] if trees else None
             if self.tree is not None:
-                self.eval = earley.evaluate(self.tree, self.kinds, fails or ())
+                self.eval = earley.evaluate(self.tree, self.kinds, fails or (), spans=self.spans,
+                                            inline_nts=getattr(cfg, "inline_nts", ()))
             self.k = None
         else:
             self.k = ch.dead_at          # 1-based index of the offending token, or None (EOF)
@@ -196,12 +197,19 @@ def term_of_expected(s):
     return None
 
 
+def _dump_model(g):
+    from .replay import dump_model
+    return dump_model(g)
+
+
 def witness(case, e, rec, orc, kind, detail):
     return {
         "kind": kind,
         "sig": "%s/%s" % (kind, e.tag),
         "summary": "%s config=%s start=%s input=%s: %s" % (kind, e.tag, e.start, " ".join(e.toks), detail),
         "grammar": subject.apply_config(case.text, e.tag),
+        "text": case.text,
+        "model": _dump_model(case.g),
         "env": subject.config_env(e.tag),
         "config": e.tag,
         "start": e.start,
@@ -264,7 +272,9 @@ def monitor_basic(chk, props, case, e, rec, orc, known_matcher=None):
             return
         st, val, exp_events = orc.eval
         if st == "ok":
-            if r["ok"] != val:
+            if earley.has_wildcard(val):
+                chk.count("values_with_unspecified_location")
+            if not earley.values_match(val, r["ok"]):
                 viol("C02", "wrong_value", {"expected_value": val, "got": r["ok"]})
             if acts != exp_events:
                 viol("C02", "wrong_action_order", {"expected_events": exp_events, "got": acts})
